@@ -1,0 +1,16 @@
+//go:build verif
+// +build verif
+
+package onet
+
+import "go.dedis.ch/onet/v3/network"
+
+// Accessor for the verification harness (properties C17 and C09); compiled
+// only with the build tag "verif".
+
+// VerifLocalManager returns the manager of the in-memory transport this
+// LocalTest runs on, so that bare routers can be attached to the same network
+// as its servers.
+func (l *LocalTest) VerifLocalManager() *network.LocalManager {
+	return l.ctx
+}
